@@ -147,16 +147,16 @@ Proof.
     rewrite (bind_assoc _ _ _ (Prog.p_le 4) _ _ d). rewrite run_pure_bind.
     pose proof (agrees_le 4 d) as H4. destruct (run_pure (Prog.p_le 4) d) as [[id|e] r].
     + rewrite H4. destruct (id =? Layout.bai_metadata_id).
-      * rewrite (bind_assoc _ _ _ (map_err as_invalid g_metadata) _ _ r). rewrite run_pure_bind.
-        pose proof (agrees_map_err _ _ _ agrees_metadata r) as HM.
-        destruct (run_pure (map_err as_invalid g_metadata) r) as [[md|e] r'].
+      * rewrite (bind_assoc _ _ _ g_metadata _ _ r). rewrite run_pure_bind.
+        pose proof (agrees_metadata r) as HM.
+        destruct (run_pure g_metadata r) as [[md|e] r'].
         -- rewrite HM. destruct m as [m0|].
            ++ cbn [bind run_pure]. split; [reflexivity|discriminate].
            ++ cbn [bind]. apply IH.
         -- destruct HM as [HM He]. rewrite HM. auto.
-      * rewrite (bind_assoc _ _ _ (map_err as_invalid g_chunks) _ _ r). rewrite run_pure_bind.
-        pose proof (agrees_map_err _ _ _ agrees_chunks r) as HC.
-        destruct (run_pure (map_err as_invalid g_chunks) r) as [[cs|e] r'].
+      * rewrite (bind_assoc _ _ _ g_chunks _ _ r). rewrite run_pure_bind.
+        pose proof (agrees_chunks r) as HC.
+        destruct (run_pure g_chunks r) as [[cs|e] r'].
         -- rewrite HC. destruct (existsb (fun b => fst b =? id) acc).
            ++ cbn [bind run_pure]. split; [reflexivity|discriminate].
            ++ cbn [bind]. apply IH.
@@ -256,9 +256,9 @@ Lemma until_free_g_bin_step : forall st, until_free (g_bin_step st).
 Proof.
   intros st. unfold g_bin_step. apply until_free_bind; [apply until_free_p_le|]. intros id.
   destruct (id =? Layout.bai_metadata_id).
-  - apply until_free_bind; [apply until_free_map_err, until_free_g_metadata|]. intros md.
+  - apply until_free_bind; [apply until_free_g_metadata|]. intros md.
     destruct (snd st); exact I.
-  - apply until_free_bind; [apply until_free_map_err, until_free_g_chunks|]. intros cs.
+  - apply until_free_bind; [apply until_free_g_chunks|]. intros cs.
     destruct (existsb _ _); exact I.
 Qed.
 
@@ -343,3 +343,97 @@ Proof.
   apply until_free_bind; [exact Hb|]. intros o. destruct o as [x|]; [|exact I].
   apply until_free_bind; [exact IH|]. intros xs. exact I.
 Qed.
+
+(* ---- fai: the read_until line loop is C17's byte-based line loop (NV.Index.TextIndex.read_fai
+   after /repo 24986d3) *)
+Lemma break_take : forall d,
+  match TextIndex.break_at LF d with
+  | (raw, Some rest) => take_line LF d = raw ++ [LF] /\ skipn (length (take_line LF d)) d = rest
+  | (raw, None) => take_line LF d = d /\ raw = d
+  end.
+Proof.
+  induction d as [|x t IH].
+  - cbn. auto.
+  - cbn [TextIndex.break_at take_line]. destruct (x =? LF) eqn:E.
+    + assert (Hx : x = LF) by (apply N.eqb_eq; exact E). subst x. cbn. auto.
+    + destruct (TextIndex.break_at LF t) as [raw [rest|]].
+      * destruct IH as [H1 H2]. rewrite H1 in *. cbn [app length skipn]. auto.
+      * destruct IH as [H1 H2]. rewrite H1, H2. auto.
+Qed.
+
+Lemma ends_with_cons : forall b x (l : list N), l <> [] -> ends_with b (x :: l) = ends_with b l.
+Proof.
+  intros b x l Hl. unfold ends_with. cbn [rev].
+  destruct (rev l) as [|y r] eqn:E.
+  - exfalso. apply Hl. apply (f_equal (@rev N)) in E. rewrite rev_involutive in E. exact E.
+  - reflexivity.
+Qed.
+
+Lemma strip_cr_spec : forall raw,
+  TextIndex.strip_cr raw = if ends_with CR raw then removelast raw else raw.
+Proof.
+  induction raw as [|x t IH]; [reflexivity|].
+  destruct t as [|y t'].
+  - cbn. destruct (x =? 13); reflexivity.
+  - rewrite ends_with_cons by discriminate.
+    change (TextIndex.strip_cr (x :: y :: t')) with (x :: TextIndex.strip_cr (y :: t')).
+    rewrite IH. destruct (ends_with CR (y :: t')); reflexivity.
+Qed.
+
+Lemma strip_eol_lf : forall raw, strip_eol (raw ++ [LF]) = TextIndex.strip_cr raw.
+Proof.
+  intros raw. unfold strip_eol.
+  assert (E : ends_with LF (raw ++ [LF]) = true).
+  { unfold ends_with. rewrite rev_app_distr. reflexivity. }
+  rewrite E, removelast_last. symmetry. apply strip_cr_spec.
+Qed.
+
+Lemma break_none_no_lf_end : forall d raw,
+  TextIndex.break_at LF d = (raw, None) -> ends_with LF d = false.
+Proof.
+  induction d as [|x t IH]; intros raw H; [reflexivity|].
+  cbn [TextIndex.break_at] in H. destruct (x =? LF) eqn:E; [discriminate H|].
+  destruct (TextIndex.break_at LF t) as [l [r|]] eqn:Eb; [discriminate H|].
+  destruct t as [|y t'].
+  - unfold ends_with. cbn [rev app]. exact E.
+  - rewrite ends_with_cons by discriminate. exact (IH l eq_refl).
+Qed.
+
+Lemma p_text_index_bytes_spec : forall (A : Type) (parse : list N -> option A) fuel d,
+  (length d < fuel)%nat ->
+  opt_of (run_pure (p_text_index false fuel parse) d) = TextIndex.read_lines_bytes fuel parse d.
+Proof.
+  intros A parse. unfold TextIndex.read_lines_bytes, p_text_index.
+  induction fuel as [|f IH]; intros d Hlen; [lia|].
+  cbn [p_loop TextIndex.read_lines_gen]. rewrite run_pure_bind.
+  unfold g_text_record at 1. cbn [run_pure].
+  destruct d as [|x t]; [reflexivity|]. change TextIndex.LF with LF. set (d := x :: t) in *.
+  pose proof (break_take d) as HB.
+  assert (Hne : take_line LF d <> []).
+  { unfold d. cbn [take_line]. destruct (x =? LF); discriminate. }
+  destruct (TextIndex.break_at LF d) as [raw [rest|]] eqn:Eb.
+  - destruct HB as [HT HS]. rewrite HS.
+    destruct (take_line LF d) as [|y l] eqn:ET; [congruence|]. rewrite <- ET in *. clear ET.
+    cbn [negb orb]. unfold TextIndex.no_check in *. rewrite HT, strip_eol_lf.
+    destruct (parse (TextIndex.strip_cr raw)) as [r|]; [|reflexivity].
+    cbn [run_pure]. rewrite run_pure_bind.
+    assert (Hr : (length rest < f)%nat).
+    { rewrite <- HS, skipn_length. rewrite HT, app_length. cbn [length].
+      unfold d in Hlen. cbn [length] in Hlen. unfold d. cbn [length]. lia. }
+    specialize (IH rest Hr).
+    destruct (run_pure (p_loop f (g_text_record false parse)) rest) as [[xs|e] r'];
+      cbn [opt_of] in IH; rewrite <- IH; reflexivity.
+  - destruct HB as [HT HR]. subst raw. rewrite HT.
+    unfold d at 1. cbn [negb orb]. unfold TextIndex.no_check in *.
+    assert (Hs : strip_eol d = d).
+    { unfold strip_eol. rewrite (break_none_no_lf_end d d Eb). reflexivity. }
+    fold d. rewrite Hs.
+    destruct (parse d) as [r|]; [|reflexivity].
+    cbn [run_pure]. rewrite skipn_all. rewrite run_pure_bind.
+    destruct f as [|f']; [unfold d in Hlen; cbn [length] in Hlen; lia|].
+    reflexivity.
+Qed.
+
+Theorem p_fai_is_read_fai : forall d,
+  opt_of (run_pure (p_fai (Datatypes.S (length d))) d) = TextIndex.read_fai d.
+Proof. intros d. unfold p_fai, TextIndex.read_fai. apply p_text_index_bytes_spec. lia. Qed.
